@@ -4,8 +4,9 @@ Engine: gridmc over a finite catalogue (no sampling).  Every cell of
 
     system (H2, H4 chain, H4 ring, LiH, OH; Hubbard chains/rings and ab-initio integrals through the
     `integrals` argument) x geometry ladder x basis set x spin state x mean field (RHF/ROHF/UHF)
-    x norb_frozen x {exact ERI + chol_cut, density fitting} x basis_coeff (default / rotated / Loewdin /
-    truncated) x {mean-field object, CCSD, UCCSD} x _prep_afqmc options (walker_type x trial)
+    x norb_frozen x {exact ERI + chol_cut, density fitting with the fitting basis given by name / as a
+    dictionary / not at all, on orbital bases with (sto-3g, 6-31g) and without (sto-6g, a basis dictionary)
+    a predefined fitting basis} x basis_coeff (default / rotated / Loewdin / truncated) x {mean-field object, CCSD, UCCSD} x _prep_afqmc options (walker_type x trial)
 
 that the property admits is pushed through the REAL pipeline  pyscf_interface.prep_afqmc -> files in a
 private scratch directory -> mpi_jax._prep_afqmc -> ham.build_*_intermediates -> prop.init_prop_data,
@@ -41,8 +42,9 @@ from mc import core
 from mc.core import Result
 
 ID = "C16"
-TECHNIQUE = ("exhaustive enumeration of a finite molecule / lattice / option catalogue through the real "
-             "prep_afqmc -> files -> _prep_afqmc pipeline, pyscf as independent SCF/FCI/CC oracle")
+TECHNIQUE = ("exhaustive enumeration of a finite molecule / lattice / integral-source (exact, Cholesky thresholds, every way "
+             "of specifying a density-fitting basis) / option catalogue through the real prep_afqmc -> files -> _prep_afqmc "
+             "pipeline, pyscf as independent SCF/FCI/CC oracle")
 
 TMP_ROOT = os.path.join(core.ROOT, "scratch", "c16_tmp")
 U32 = 2.0 ** -24  # float32 unit round-off (cisd/ucisd cast one doubles contraction to complex64/float32)
@@ -124,6 +126,21 @@ def hubbard(shape, n, U):
     return 0.0, h1, eri
 
 
+# a user-defined orbital basis (pyscf has no predefined fitting basis for a basis given as a dictionary)
+USER_BASIS_H = "H S\n 3.42525091 0.15432897\n 0.62391373 0.53532814\n 0.16885540 0.44463454\nH S\n 0.3 1.0"
+DF_AUX = "def2-universal-jkfit"
+
+
+def is_df(eri):
+    return str(eri).startswith("df")
+
+
+def orbital_basis(name):
+    from pyscf import gto
+
+    return {"H": gto.basis.parse(USER_BASIS_H)} if name == "user" else name
+
+
 class System:
     """Everything pyscf knows about one problem, in the basis the interface decomposes the ERIs in
     ('AO': the atomic orbitals, or the user's orthonormal basis for the `integrals` path)."""
@@ -134,7 +151,8 @@ class System:
         self.sd = sd
         self.path = "integrals" if sd["kind"] in ("hub", "molint") else "mol"
         if sd["kind"] == "mol":
-            self.mol = gto.M(atom=geometry(sd["name"], sd["scale"]), basis=sd["basis"], spin=sd["spin"], verbose=0)
+            self.mol = gto.M(atom=geometry(sd["name"], sd["scale"]), basis=orbital_basis(sd["basis"]), spin=sd["spin"],
+                             verbose=0)
             self.S = self.mol.intor("int1e_ovlp")
             self.h0 = float(self.mol.energy_nuc())
             self.integrals = None
@@ -185,8 +203,15 @@ class System:
             mf.get_ovlp = lambda *a, **k: np.eye(n)
             mf._eri = ao2mo.restore(8, self._eri, n)
             mf.energy_nuc = lambda *a, **k: h0
-        elif eri == "df":
-            mf = mf.density_fit(auxbasis="def2-universal-jkfit")
+        elif eri == "df":  # fitting basis given by name
+            mf = mf.density_fit(auxbasis=DF_AUX)
+        elif eri == "df-dict":  # fitting basis given as a dictionary of explicit shells
+            from pyscf import gto
+
+            els = sorted({self.mol.atom_symbol(i) for i in range(self.mol.natm)})
+            mf = mf.density_fit(auxbasis={el: gto.basis.load(DF_AUX, el) for el in els})
+        elif eri == "df-none":  # no fitting basis given: pyscf picks the predefined one for the orbital basis, or, where
+            mf = mf.density_fit()  # there is none (sto-6g, a basis dictionary), generates an even-tempered one at build time
         mf.conv_tol = 1e-11
         mf.max_cycle = 300
         if self.path == "integrals" and kind == "uhf":
@@ -256,10 +281,10 @@ class System:
             return self._eri_cache[eri]
         if self.path == "integrals":
             out = self._eri
-        elif eri == "df":
+        elif is_df(eri):
             from pyscf import lib as pl
 
-            mf = self.mf("rhf" if self.nelec[0] == self.nelec[1] else "rohf", "df")
+            mf = self.mf("rhf" if self.nelec[0] == self.nelec[1] else "rohf", eri)
             L = pl.unpack_tril(np.asarray(mf.with_df._cderi))
             out = np.einsum("Lpq,Lrs->pqrs", L, L, optimize=True)
         else:
@@ -376,7 +401,8 @@ def _nelec_of(sd):
 def _nao_of(sd):
     if sd["kind"] == "hub":
         return sd["n"]
-    per = {"sto-3g": {"H": 1, "Li": 5, "O": 5}, "6-31g": {"H": 2, "Li": 9, "O": 9}}[sd["basis"]]
+    per = {"sto-3g": {"H": 1, "Li": 5, "O": 5}, "sto-6g": {"H": 1, "Li": 5, "O": 5}, "6-31g": {"H": 2, "Li": 9, "O": 9},
+           "user": {"H": 2}}[sd["basis"]]
     atoms = {"H2": "HH", "H4c": "HHHH", "H4r": "HHHH", "LiH": ["Li", "H"], "OH": "OH"}[sd["name"]]
     return sum(per[a] for a in atoms)
 
@@ -392,6 +418,12 @@ def system_list(tier, seed):
     for name, basis, spin in mols:
         for i, s in enumerate(scales):
             out.append(dict(kind="mol", name=name, basis=basis, spin=spin, scale=s, scale_i=i))
+    # orbital bases WITHOUT a predefined density-fitting basis (sto-6g: the basis of the repository's H-chain examples;
+    # a basis dictionary): equilibrium and stretched rung
+    for name, basis, spin in [("H2", "sto-6g", 0), ("H4c", "sto-6g", 0), ("H4c", "user", 0), ("LiH", "sto-6g", 0),
+                              ("OH", "sto-6g", 1)]:
+        for i in (1, 3):
+            out.append(dict(kind="mol", name=name, basis=basis, spin=spin, scale=scales[i], scale_i=i))
     for shape, n in [("chain", 2), ("chain", 3), ("ring", 3), ("chain", 4), ("ring", 4), ("chain", 5),
                      ("ring", 5), ("chain", 6), ("ring", 6)]:
         for U in (1.0, 4.0, 8.0):
@@ -420,6 +452,7 @@ def cells_of_system(sd, tier):
     path = "integrals" if sd["kind"] in ("hub", "molint") else "mol"
     small = sd.get("basis", "sto-3g") == "sto-3g"
     big = sd["kind"] == "mol" and sd["name"] == "OH" and sd["basis"] == "6-31g"
+    nofit = sd.get("basis") in ("sto-6g", "user")
     mfs = ["rhf", "uhf", "rohf"] if na == nb else ["rohf", "uhf"]
     out = []
     for mfk in mfs:
@@ -432,8 +465,12 @@ def cells_of_system(sd, tier):
                 eris = [("exact", c) for c in CUTS] + [("df", None)]
             else:
                 eris = [("exact", 1e-6), ("df", None)]
+            if nofit:
+                eris = [("df-none", None), ("df", None), ("exact", 1e-6)]
             if big:
                 eris = [("exact", 1e-6)]
+            if path == "mol" and small and not minor:  # the other ways of specifying the fitting basis, on the default orbital basis
+                eris = eris + [("df-dict", None), ("df-none", None)]
             for eri, cut in eris:
                 for ccx in (None, "ccsd", "uccsd"):
                     letters = _basis_letters(path, mfk, fr, nao, small)
@@ -444,8 +481,10 @@ def cells_of_system(sd, tier):
                             continue
                         if sd["kind"] == "hub" and bas != "eye" and not (sd["U"] == 4.0 or (ccx and sd["U"] == 1.0)):
                             continue
-                        if ccx and eri == "df":
+                        if ccx and (is_df(eri) or nofit):
                             continue  # DF coupled cluster is not claimed by the property
+                        if eri in ("df-dict", "df-none") and not nofit and bas != "default":
+                            continue
                         if ccx and not small and cut != 1e-6:
                             continue
                         cell = dict(sys=sd, path=path, nelec=[na, nb], nao=nao, mf=mfk, frozen=fr, eri=eri,
@@ -492,10 +531,11 @@ def letters_of(cell, scales):
         scale_i = "s%d" % scales.index(sd["scale"])
         spin = "spin%d" % sd["spin"]
         basisset = sd["basis"]
-    eri = "df" if cell["eri"] == "df" else "cut%g" % cell["cut"]
+    eri = cell["eri"] if is_df(cell["eri"]) else "cut%g" % cell["cut"]
+    eri_c = "df" if is_df(cell["eri"]) else eri
     sysclass = sysname if sd["kind"] == "mol" else ("hub-" + sd["shape"] if sd["kind"] == "hub" else "int-mol")
     return dict(sysclass=sysclass, sysname=sysname, scale_i=scale_i, basisset=basisset, spin=spin, mf=cell["mf"],
-                frozen=cell["frozen"], eri=eri, bas=cell["bas"], cc=str(cell["cc"]), path=cell["path"])
+                frozen=cell["frozen"], eri=eri, eri_c=eri_c, bas=cell["bas"], cc=str(cell["cc"]), path=cell["path"])
 
 
 def cell_cost(cell):
@@ -513,10 +553,14 @@ def quick_subset(cells, scales):
     integrals; the individual lattice sizes, spin states and basis sets are covered letter by letter.)"""
     cheap = [c for c in cells if cell_cost(c) < 15.0]
     lets = [letters_of(c, scales) for c in cheap]
-    pair_axes = [("sysclass", a) for a in ("mf", "frozen", "eri", "bas", "cc")] + \
+    # eri_c = threshold letter or "df"; eri additionally tells HOW the fitting basis was specified (name / dictionary /
+    # not at all), which is crossed with the orbital basis set: whether pyscf has a predefined fit for it decides
+    # what `with_df.auxbasis` holds
+    pair_axes = [("sysclass", a) for a in ("mf", "frozen", "eri_c", "bas", "cc")] + \
                 [("path", a) for a in ("sysname", "scale_i", "spin", "basisset")] + \
-                [("mf", "frozen"), ("mf", "eri"), ("mf", "bas"), ("mf", "cc"), ("frozen", "eri"), ("frozen", "bas"),
-                 ("frozen", "cc"), ("eri", "bas"), ("eri", "cc"), ("path", "bas"), ("path", "eri"), ("spin", "mf")]
+                [("mf", "frozen"), ("mf", "eri_c"), ("mf", "bas"), ("mf", "cc"), ("frozen", "eri_c"), ("frozen", "bas"),
+                 ("frozen", "cc"), ("eri_c", "bas"), ("eri_c", "cc"), ("path", "bas"), ("path", "eri_c"), ("spin", "mf"),
+                 ("basisset", "eri")]
 
     def pairs(l):
         return {(a, l[a], b, l[b]) for a, b in pair_axes}
@@ -596,7 +640,7 @@ def bounds(cell, wa, wb, Bact, amps):
          + singles   sum_s sum_ia t_ia dF_ia,  |dF_ia| <= delta w_i w_a (A + B + same-spin sum)
          + the float32 contraction of the doubles term inside cisd/ucisd (added where the trial is known).
     Density fitting: both sides use the same DF Hamiltonian, delta = 0."""
-    delta = 0.0 if cell["eri"] == "df" else float(cell["cut"])
+    delta = 0.0 if is_df(cell["eri"]) else float(cell["cut"])
     na, nb = cell["nelec"][0] - cell["frozen"], cell["nelec"][1] - cell["frozen"]
     N = na + nb
     A, Bb = float((wa[:na] ** 2).sum()), float((wb[:nb] ** 2).sum())
@@ -691,7 +735,7 @@ def path_class(cell):
         s += {"eye": "", "default": "+mo_basis", "rot": "+basis_coeff"}[cell["bas"]]
     elif cell["bas"] != "default":
         s += "+basis_coeff"
-    if cell["eri"] == "df":
+    if is_df(cell["eri"]):
         s += "+df"
     return s
 
@@ -1028,7 +1072,9 @@ def job(j):
 def run(ctx):
     ctx.rule = ("cells = system (5 molecules x 4-rung geometry ladder x {sto-3g, 6-31g} x spin states; Hubbard chains/rings of 2-6 "
                 "sites x U in {1,4,8} x fillings; ab-initio integrals through the `integrals` argument) x mean field {RHF, ROHF, UHF} x "
-                "norb_frozen {0,1} x {chol_cut in 1e-4,1e-6,1e-8 | density fitting} x basis_coeff letter {default, rotated, Loewdin, "
+                "norb_frozen {0,1} x {chol_cut in 1e-4,1e-6,1e-8 | density fitting with auxbasis given by name, as a dictionary of shells, or "
+                "left to pyscf -- on sto-3g/6-31g (predefined fit) and on sto-6g / a user basis dictionary (no predefined fit: pyscf builds "
+                "an even-tempered one, with_df.auxbasis stays None); the written integrals must be those of mf.with_df} x basis_coeff letter {default, rotated, Loewdin, "
                 "truncated | eye, MO, rotated} x {mean-field object, CCSD, UCCSD}, restricted to what the property admits, each crossed "
                 "with the walker_type x trial options the written files define (full cross on the default basis, natural pairs on the "
                 "other basis letters). thorough = every cell of that matrix, where the full product is taken on the equilibrium and "
